@@ -43,7 +43,10 @@ func (m *PositionMapper) LSPToByte(pos protocol.Position) int {
 		return len(m.content)
 	}
 	byteOffset := m.lineStarts[line]
-	byteOffset += UTF16OffsetToByteOffset(m.lines[line], int(pos.Character))
+	// The CR of a CRLF line end is not part of the line: a character past the
+	// end of the line clamps in front of it, never between CR and LF.
+	lineText := strings.TrimSuffix(m.lines[line], "\r")
+	byteOffset += UTF16OffsetToByteOffset(lineText, int(pos.Character))
 	return byteOffset
 }
 
